@@ -49,6 +49,9 @@ BAD = {
     "new-prefixed-symbol-clashes-with-a-unit": lambda b: {"x1": unit(b, "x1"), "ol": unit(b, "ol", prefixes=b.list(["m"]))},
     "malformed-missing-magnitude": lambda b: {"x1": unit(b, "x1"), "x2": b.dict(dict(dimensions=b.list([1, 0, 0, 0, 0, 0, 0, 0])))},
     "malformed-missing-dimensions": lambda b: {"x2": b.dict(dict(magnitude=1.0))},
+    # the conversion type is inserted before the malformed entry is read: nothing registered yet, one type to take back
+    "malformed-first-unit-carrying-a-new-type": lambda b: {"x1": b.dict(dict(dimensions=b.list([1, 0, 0, 0, 0, 0, 0, 0]), definition=b.glob("units/unit_types.py::UnitType")))},
+    "malformed-second-unit-after-a-new-type": lambda b: {"x1": unit(b, "x1", definition=b.glob("units/unit_types.py::UnitType")), "x2": b.dict(dict(dimensions=b.list([1, 0, 0, 0, 0, 0, 0, 0]), definition=b.glob("units/unit_types.py::LogarithmicUnitType")))},
 }
 
 
@@ -89,6 +92,17 @@ for meth, args in (("close", []), ("__exit__", [None, None, None]), ("__exit__[e
                 a = [e] + [(b.const(ValueError) if x == "exc" else x) for x in args]
                 return dict(args=a, env=env)
             c.scenario(name, pre)
+
+        def types_only(b):
+            # a scope that recorded a conversion type but no unit (what a registration failing on its first entry leaves)
+            env = _env(b)
+            e = b.new(UE, b.dict({}))
+            t = b.glob("units/unit_types.py::UnitType")
+            b.call(b.getattr(env["ut"], "insert"), 0, t)
+            b.call(b.getattr(b.getattr(e, "new_types"), "append"), t)
+            a = [e] + [(b.const(ValueError) if x == "exc" else x) for x in args]
+            return dict(args=a, env=env)
+        c.scenario("types-without-units", types_only)
         c.ensures("list(us._keys) == [k for k in old(list(us._keys)) if k not in old(list(self.new_units))]", "exactly-its-units-removed")
         c.ensures("list(ut) == old(list(ut))[len(old(list(self.new_types))):]", "exactly-its-types-removed")
         c.ensures("gstate(us, up, ut)[0] == old(gstate(us, up, ut)[0])[:len(gstate(us, up, ut)[0])]", "remaining-rows-untouched")
